@@ -147,7 +147,16 @@ impl Add for Duration {
             None => {
                 // Overflowed, so we've hit the bound.
                 if self.centuries < 0 {
-                    // We've hit the negative bound, so return MIN.
+                    // We've hit the negative bound, unless the nanoseconds carry brings the sum back in range.
+                    if i32::from(self.centuries) + i32::from(rhs.centuries)
+                        == i32::from(i16::MIN) - 1
+                        && self.nanoseconds + rhs.nanoseconds >= NANOSECONDS_PER_CENTURY
+                    {
+                        return Self::from_parts(
+                            i16::MIN,
+                            self.nanoseconds + rhs.nanoseconds - NANOSECONDS_PER_CENTURY,
+                        );
+                    }
                     return Self::MIN;
                 } else {
                     // We've hit the positive bound, so return MAX.
